@@ -372,8 +372,10 @@ func runC02(c *Ctx) {
 			"probe reached only when GetDNSBasicRule returned nil", "hosts-file rules are consulted although a basic network rule was found (or with another hostname)")
 		okBasic := false
 		for _, ef := range s.Effects {
+			// stored whenever it is non-nil; storing a nil selection into the fresh result changes nothing
 			if ef.Kind == "store" && ef.Addr.Op == "faddr" && ef.Addr.Aux == "NetworkRule" && ef.Val == callGDB.Call &&
-				ef.Cond == u.bdd.And(u.bdd.Not(hostEmpty), u.bdd.Not(basicNil)) {
+				u.bdd.Implies(u.bdd.And(u.bdd.Not(hostEmpty), u.bdd.Not(basicNil)), ef.Cond) && u.bdd.Implies(ef.Cond, u.bdd.Not(hostEmpty)) &&
+				(ef.Addr.Args[0].Op == "alloc" || ef.Addr.Args[0].Op == "new" || ef.Cond == u.bdd.And(u.bdd.Not(hostEmpty), u.bdd.Not(basicNil))) {
 				okBasic = true
 			}
 		}
